@@ -213,6 +213,23 @@ def read_params():
     return res
 
 
+# ---------------------------------------------------------------- evaluation of translated definitions inside Coq
+def coq_eval(name, header, terms, timeout=600):
+    """terms: Coq terms of type option (list Z).  Evaluates each with vm_compute (one coqc call, the compiled gen/*.vo of the current
+    translation) and returns, per term, the list of integers or None (the term evaluated to None / did not evaluate)."""
+    d = os.path.join(BUILD, "coq_eval"); os.makedirs(d, exist_ok=True)
+    f = os.path.join(d, name + ".v")
+    body = header + "\n" + "\n".join('Eval vm_compute in (%d, %s).' % (i, t) for i, t in enumerate(terms)) + "\n"
+    open(f, "w").write(body)
+    rc, out = sh(["coqc", "-Q", COQ, "NTT", f], timeout=timeout, cwd=d)
+    res = [None] * len(terms)
+    if rc != 0: return res, out[-1500:]
+    flat = " ".join(out.split())
+    for m in re.finditer(r"= \((\d+), (Some \[([^\]]*)\]|None)\)", flat):
+        i = int(m.group(1))
+        if m.group(2) != "None": res[i] = [int(x) for x in m.group(3).replace(";", " ").split()]
+    return res, ""
+
 # ---------------------------------------------------------------- prove
 def coq_makefile():
     if not all(os.path.exists(os.path.join(COQ, g)) for g in ("gen/Gen.v", "gen/GenVec.v", "gen/GenLoop.v", "gen/GenGmp.v", "gen/GenOs.v", "gen/GenPerm.v")):
